@@ -464,6 +464,7 @@ def tagged_case(
     exact=False,  # t = 1 and no cuts inside contigs: every length is known exactly
     fasta=None,  # plain FASTA to derive the input from (names already haplotype-prefixed if wanted)
     slivers=False,  # small fractional texels, gaps of ~2 texels, many cuts near contig ends
+    primary_mode=None,  # two haplotypes, only the first is curated; its first painted scaffold carries `Primary`
 ):
     if exact:
         t = 1.0
@@ -473,6 +474,7 @@ def tagged_case(
         t = draw(texel(small=small_texel))
     two = draw(st.integers(0, 2)) == 0 if two_haplotypes is None else two_haplotypes
     haps = draw(st.sampled_from([["Hap1", "Hap2"], ["hap1", "hap2"], ["HAP1", "HAP2"], ["mat", "pat"]])) if two else []
+    primary = bool(two) and fasta is None and (draw(st.integers(0, 3)) == 0 if primary_mode is None else primary_mode)
     if fasta is not None:
         from vf.props.c03 import fasta_input_plain
 
@@ -481,7 +483,7 @@ def tagged_case(
         inp = draw(input_assembly(t, max_scaffolds=max_scaffolds, max_contigs=max_contigs, shape="fasta",
                                   min_scaffolds=2, strands="fwd"))
         for i, sc in enumerate(inp):
-            if i >= 2 and draw(st.integers(0, 4)) == 0:
+            if i >= 2 and not primary and draw(st.integers(0, 4)) == 0:
                 # a scaffold without a haplotype prefix (organelle, unassigned): belongs to no haplotype
                 new = draw(st.sampled_from(["MT{}", "scaffold_{}", "unassigned{}"])).format(90 + i)
                 for r in sc[1]:
@@ -533,6 +535,11 @@ def tagged_case(
         for pi in group:
             name, s, e = pieces[pi]
             rows.append(["F", name, s, e, draw(st.sampled_from([1, 1, -1])), ["Painted"] if painted else []])
+        if primary and painted and any(hap_of[r[1]] != haps[0] for r in rows):
+            # only the first haplotype is curated in Primary mode
+            painted = False
+            for r in rows:
+                r[5] = []
         if two and not painted:
             # an unplaced Pretext scaffold draws its pieces from input scaffolds of one haplotype
             h0 = hap_of[rows[0][1]]
@@ -544,7 +551,7 @@ def tagged_case(
 
     painted_sc = [s for s in scaffolds if s["painted"]]
     unpainted_sc = [s for s in scaffolds if not s["painted"]]
-    if two:
+    if two and not primary:
         # assign haplotypes to painted scaffolds in groups H1 (H2){0,2}
         ordered = []
         k = 0
@@ -565,7 +572,11 @@ def tagged_case(
         painted_sc = ordered
     # interleave unpainted scaffolds at drawn positions, keeping the painted order
     final = list(painted_sc)
-    if draw(st.booleans()):
+    if primary and not painted_sc:
+        primary = False
+    if primary:
+        painted_sc[0]["primary_tag"] = True
+    if primary or draw(st.booleans()):
         final += unpainted_sc  # as PretextView writes them: painted chromosomes first, unplaced scaffolds after
     else:
         for s in unpainted_sc:
@@ -576,7 +587,7 @@ def tagged_case(
     used = []
     for s in final:
         if s["painted"] and (draw(st.integers(0, 4)) == 0 or (two and used and s["hap"] == haps[1] and draw(st.booleans()))):
-            p = pool[s["hap"]]
+            p = pool.setdefault(s["hap"], list(NAME_TAGS))
             if two and used and draw(st.integers(0, 2)) > 0 and used[-1] in p:
                 # the same chromosome (e.g. X) painted in both haplotypes
                 p.remove(used[-1])
@@ -600,6 +611,8 @@ def tagged_case(
             _put_scaffold_tag(draw, rows, spelled)
         if s.get("singleton"):
             _put_scaffold_tag(draw, rows, "Singleton")
+        if s.get("primary_tag"):
+            _put_scaffold_tag(draw, rows, "Primary")
         if s["name_tag"]:
             _put_scaffold_tag(draw, rows, s["name_tag"])
         # in Target mode every painted (i.e. curated) scaffold is a target; unpainted ones may be left untagged
@@ -625,4 +638,5 @@ def tagged_case(
         "map": out,
         "prefix": draw(st.sampled_from(PREFIXES)),
         "haps": haps,
+        "primary_mode": primary,
     }
